@@ -258,8 +258,8 @@ func runMachine(t *testing.T, cfg *MachineCfg) {
 }
 
 // replayHistory re-executes a stored history without any generator.
-func replayHistory(cfg *MachineCfg, steps []world.Step, aolGenesis, didGenesis json.RawMessage) (*world.World, error) {
-	opt := world.Options{Prop: cfg.Prop, Also: alsoSet(cfg.Also), Open: OpenFindings(), Twin: cfg.Twin, Perturb: cfg.Perturb, AolGenesis: aolGenesis, DidGenesis: didGenesis}
+func replayHistory(cfg *MachineCfg, steps []world.Step, aolGenesis, didGenesis, pnftGenesis json.RawMessage) (*world.World, error) {
+	opt := world.Options{Prop: cfg.Prop, Also: alsoSet(cfg.Also), Open: OpenFindings(), Twin: cfg.Twin, Perturb: cfg.Perturb, AolGenesis: aolGenesis, DidGenesis: didGenesis, PnftGenesis: pnftGenesis}
 	w, err := world.New(opt)
 	if err != nil {
 		return nil, err
